@@ -68,6 +68,10 @@ def c16 (op : String) (a : Array Json) : R (Option Json) := do
     | "elemwise2" =>
       let nB ← jNat (← arg a 4); let m ← jNat (← arg a 5)
       pure (some (costJ (Cost.elemwise2 d n nB m) ((d + 1) * n + (d + 1) * nB + (d + 1) * m) 7))
+    | "elemwise_mixed" =>
+      -- params: stored elements of the result, number of elements of the dense operands' broadcast shape
+      let m ← jNat (← arg a 4); let dsz ← jNat (← arg a 5)
+      pure (some (costJ (Cost.elemwiseMixed d n m dsz) ((d + 1) * n + (d + 1) * m + dsz) 3))
     | "reduce" =>
       -- params: reduced axes, number of groups, stored elements of the result
       let axes ← jList jNat (← arg a 4); let g ← jNat (← arg a 5); let m ← jNat (← arg a 6)
